@@ -155,6 +155,9 @@ func CaseLabels(c *Case, v *VResult) map[string]bool {
 			if len(op.F.Faults) > 0 {
 				l["has-faults"] = true
 			}
+			if op.F.SideFn != nil {
+				l["body-registers-a-usable-key"] = true
+			}
 			if op.F.Side != "" {
 				l["body-calls-container("+op.F.Side+")"] = true
 			}
